@@ -182,7 +182,7 @@ class TLCResult:
 
 def tlc(spec, cfg, rundir, workers=None, timeout=600, simulate=None, depth=None,
         coverage=False, env=None, dfs=False, extra="", xmx="8g", seed=None, tag=None,
-        deadlock=None, dump=None, library=None):
+        deadlock=None, dump=None, library=None, xss=None):
     """Run TLC on spec/<spec>.tla with spec/<cfg>. Returns TLCResult."""
     tag = tag or os.path.splitext(os.path.basename(cfg))[0]
     meta = os.path.join(rundir, "tlc_" + tag)
@@ -193,6 +193,8 @@ def tlc(spec, cfg, rundir, workers=None, timeout=600, simulate=None, depth=None,
         jopts += " -Dtlc2.tool.queue.IStateQueue=StateDeque"
     if library:
         jopts += " -DTLA-Library=%s" % library
+    if xss:
+        jopts += " -Xss%s" % xss
     w = workers if workers is not None else min(NCPU, 8)
     cmd = "java %s -cp %s tlc2.TLC -workers %s -metadir %s -config %s" % (
         jopts, TLA_CP, w, os.path.join(meta, "states"), cfg)
@@ -278,7 +280,7 @@ def tlc_model(spec, cfg, rundir, must_take=(), **kw):
 
 
 def validate_trace(spec, cfg, trace_path, rundir, timeout=600, dfs=True, env=None, tag=None,
-                   accepted_inv="NotAccepted"):
+                   accepted_inv="NotAccepted", xss=None):
     """Trace validation run. Convention of the trace specs: a CONSTRAINT TrackL
     records the largest position l reached in TLC register 1 (-workers 1) and a
     POSTCONDITION prints it as <<"MAXL", n>>. The trace is accepted iff no
@@ -293,7 +295,7 @@ def validate_trace(spec, cfg, trace_path, rundir, timeout=600, dfs=True, env=Non
     e = {"TRACE": trace_path}
     if env:
         e.update(env)
-    r = tlc(spec, cfg, rundir, workers=1, timeout=timeout, dfs=dfs, env=e, tag=tag)
+    r = tlc(spec, cfg, rundir, workers=1, timeout=timeout, dfs=dfs, env=e, tag=tag, xss=xss)
     if r.timed_out or r.kind == "error" or (r.rc not in (0, 12, 13) and r.violated is None):
         return "error", r
     if r.violated == accepted_inv:
